@@ -90,9 +90,8 @@ def run(prop, tier, seed, replay=None):
             rep.extra['fresh_process_calls'] = len(keys)
             cases = core.pmap(fam_proc.record_history_case,
                               [('H-%05d' % i, h['hist'], h['files'], table) for i, h in enumerate(hists)], chunksize=8)
-            ncli = 24 if tier == 'quick' else 200
-            cases += core.pmap(fam_proc.record_cli_case, [('P-%04d' % i, seed * 1000 + i) for i in range(ncli)], chunksize=2) \
-                if ncli >= 200 else [fam_proc.record_cli_case('P-%04d' % i, seed * 1000 + i) for i in range(ncli)]
+            ncli = 48 if tier == 'quick' else 200
+            cases += core.pmap(fam_proc.record_cli_case, [('P-%04d' % i, seed * 1000 + i) for i in range(ncli)], chunksize=1, minpar=2)
         byid = {c['id']: c for c in cases}
         verdicts, wall = core.validate_traces(w, 'Trace_Process', cases, cfg=TRACE_CFG, chunk=100)
         bad = [v['id'] for v in verdicts.values() if any(f[0].startswith('machinery.') for f in v['failed'])]
